@@ -12,7 +12,7 @@ use std::path::Path;
 
 pub fn classes_of(prop: &str) -> &'static [&'static str] {
     match prop {
-        "C02" => &["durability"],
+        "C02" => &["durability", "later_session"],
         "C03" => &["prefix"],
         "C07" => &["open", "probe", "reopen_differs", "panic", "read", "crash"],
         "C11" => &["vlog_read"],
@@ -50,6 +50,7 @@ pub fn e2_workload(r: &mut Rng, cfg: &Cfg, txns: usize, committers: usize) -> Wo
         manual_flush_every: 0,
         hook_rotate_pct: 0,
         hook_flush_pct: 0,
+        stale_writer_after_failure: false,
     }
 }
 
@@ -139,6 +140,7 @@ fn base_w() -> Workload {
         manual_flush_every: 6,
         hook_rotate_pct: 0,
         hook_flush_pct: 0,
+        stale_writer_after_failure: false,
     }
 }
 
